@@ -266,3 +266,52 @@ Proof.
   - left. eexists. reflexivity.
   - right. exists rows. split; assumption.
 Qed.
+
+(* ================================================================================================
+   6. the named single faults
+   ================================================================================================ *)
+Theorem fault_burst b l1 mid X l2 : hw_wf 0 (l1 ++ mid ++ l2) -> Forall word_ok X ->
+  fault_sound b (fault_stream l1 X l2) (fault_tagged l1 X l2).
+Proof. intros Hw HX pieces Hp Hc. eapply fault_program; eassumption. Qed.
+
+Lemma hw_stream_app : forall a b, hw_stream (a ++ b) = hw_stream a ++ hw_stream b.
+Proof. induction a as [|e a IH]; intros b; cbn [app hw_stream]; [reflexivity|]. rewrite IH, app_assoc. reflexivity. Qed.
+Lemma hw_tagged_app : forall a b, hw_tagged (a ++ b) = hw_tagged a ++ hw_tagged b.
+Proof.
+  induction a as [|[T ch tr|c|body] a IH]; intros b; cbn [app hw_tagged]; [reflexivity| | |apply IH]; rewrite IH; reflexivity.
+Qed.
+
+(* a marker word written where the hardware model writes none (in particular: a second copy of any marker of the
+   stream, next to the first or anywhere else) *)
+Theorem fault_spurious_marker b l1 l2 c : hw_wf 0 (l1 ++ l2) ->
+  fault_sound b (hw_stream (l1 ++ HMarker c :: l2)) (hw_tagged (l1 ++ HMarker c :: l2)).
+Proof.
+  intros Hw. pose proof (fault_burst b l1 [] [MK (oddN c) (c mod HALF)] l2 Hw) as H.
+  unfold fault_stream, fault_tagged in H. rewrite hw_stream_app, hw_tagged_app. cbn [hw_stream hw_tagged hw_bytes].
+  cbn [words_stream junk map app entry_word] in H. rewrite app_nil_r in H. apply H.
+  constructor; [|constructor]. cbn [word_ok]. unfold HALF. lia.
+Qed.
+
+Theorem fault_single_marker b l1 m l2 : hw_wf 0 (l1 ++ HMarker m :: l2) ->
+  fault_sound b (hw_stream (l1 ++ l2)) (hw_tagged (l1 ++ l2)) /\
+  fault_sound b (hw_stream (l1 ++ HMarker m :: HMarker m :: l2)) (hw_tagged (l1 ++ HMarker m :: HMarker m :: l2)) /\
+  (forall (top : bool) c, c < HALF ->
+     fault_sound b (hw_stream l1 ++ le32 (255 * TURN + (if top then HALF else 0) + c) ++ hw_stream l2)
+                   (hw_tagged l1 ++ (MK top c, None) :: hw_tagged l2)) /\
+  (forall ch (tr : bool) ts, ch < 59 -> ts < TURN -> ts mod 2 = 0 ->
+     fault_sound b (hw_stream l1 ++ le32 ((128 + ch) * TURN + ts + (if tr then 1 else 0)) ++ hw_stream l2)
+                   (hw_tagged l1 ++ (TS ch tr ts, None) :: hw_tagged l2)).
+Proof.
+  intros Hw. assert (Hw' : hw_wf 0 (l1 ++ [HMarker m] ++ l2)) by exact Hw.
+  split; [|split; [|split]].
+  - pose proof (fault_burst b l1 [HMarker m] [] l2 Hw' (Forall_nil word_ok)) as H.
+    unfold fault_stream, fault_tagged in H. cbn [words_stream junk map app] in H.
+    rewrite hw_stream_app, hw_tagged_app. exact H.
+  - apply (fault_spurious_marker b l1 (HMarker m :: l2) m). exact Hw.
+  - intros top c Hc. pose proof (fault_burst b l1 [HMarker m] [MK top c] l2 Hw') as H.
+    unfold fault_stream, fault_tagged in H. cbn [words_stream junk map app entry_word] in H. rewrite app_nil_r in H.
+    apply H. constructor; [exact Hc|constructor].
+  - intros ch tr ts Hc Ht He. pose proof (fault_burst b l1 [HMarker m] [TS ch tr ts] l2 Hw') as H.
+    unfold fault_stream, fault_tagged in H. cbn [words_stream junk map app entry_word] in H. rewrite app_nil_r in H.
+    apply H. constructor; [cbn [word_ok]; auto|constructor].
+Qed.
